@@ -157,7 +157,7 @@ func elemText(v reflect.Value, depth int) string {
 // whose members the generated code tells apart. A handler that walks a canonical form of the
 // collection (sorted keys of the companion map, a sorted copy) emits the same text for every
 // declaration order: caught here on the real Generator, without model and without running PHP.
-func orderCase(c *vh.Ctx, key string, n data.GetValue) {
+func orderCase(c *vh.Ctx, m *vh.Model, key string, n data.GetValue) {
 	dot := strings.LastIndexByte(key, '.')
 	typ, fname := key[:dot], key[dot+1:]
 	v := reflect.ValueOf(n).Elem()
@@ -184,12 +184,37 @@ func orderCase(c *vh.Ctx, key string, n data.GetValue) {
 		c.Hit("order-probe:members-not-told-apart")
 		return
 	}
-	empty := reflect.MakeSlice(f.Type(), 0, 0)
-	f.Set(empty)
-	dropped := emitReal(n)
-	f.Set(saved)
-	if dropped.Kind == base.Kind && dropped.Text == base.Text {
-		c.Hit("order-probe:field-not-emitted") // a dropped field (static drop lists), no order to carry
+	// does the field reach the text at all? With the model: the translator lists it among the
+	// fields the handler reads (or the reflective literal has the key) — a handler that reads the
+	// field and still emits a text that ignores its order is exactly what is looked for. Without the
+	// model: dropping the members changes the text. A field that is not emitted is the business of
+	// the static drop lists (C16_static_drops_allowed), not of this probe.
+	reaches := false
+	if m != nil {
+		if pathAns, err := m.Ask("path " + typ); err == nil {
+			if strings.HasPrefix(pathAns, "special ") || strings.HasPrefix(pathAns, "scalar ") {
+				for _, part := range strings.Fields(pathAns) {
+					if strings.HasPrefix(part, "reads=") {
+						for _, r := range strings.Split(strings.TrimPrefix(part, "reads="), ",") {
+							reaches = reaches || r == fname
+						}
+					}
+				}
+			} else {
+				for _, k := range base.Fields {
+					reaches = reaches || k == fname
+				}
+			}
+		}
+	}
+	if !reaches {
+		f.Set(reflect.MakeSlice(f.Type(), 0, 0))
+		dropped := emitReal(n)
+		f.Set(saved)
+		reaches = !(dropped.Kind == base.Kind && dropped.Text == base.Text)
+	}
+	if !reaches {
+		c.Hit("order-probe:field-not-emitted")
 		return
 	}
 	swapped := reflect.MakeSlice(f.Type(), f.Len(), f.Len())
@@ -227,6 +252,17 @@ func parseSnippet(src, path string) (prog *node.Program, err string) {
 	pr, acl := p.Clone().ParseString(src, path)
 	if acl != nil {
 		return nil, acl.AsString()
+	}
+	// classes are registered by the parser, not kept in the AST; the compile command fetches them
+	// back from the VM (augmentProgramASTFromBase). For the permutation probe only: the structural
+	// comparison keeps the instances found in the AST.
+	if rvm, ok := vm.(*runtime.VM); ok {
+		for _, cl := range rvm.AllClasses() {
+			switch cs := cl.(type) {
+			case *node.ClassStatement, *node.AbstractClassStatement:
+				collect(reflect.ValueOf(cs), map[uintptr]bool{}, map[string]data.GetValue{}, 0)
+			}
+		}
 	}
 	return pr, ""
 }
@@ -463,6 +499,9 @@ func structSources(c *vh.Ctx) []string {
 	return srcs
 }
 
+// instSrc: the snippet in which the instance of a node type was found (reported with a mismatch)
+var instSrc = map[string]string{}
+
 func structStream(c *vh.Ctx, m *vh.Model) {
 	inst := map[string]data.GetValue{}
 	parsed, failed := 0, 0
@@ -476,7 +515,15 @@ func structStream(c *vh.Ctx, m *vh.Model) {
 			continue
 		}
 		parsed++
+		before := len(inst)
 		collect(reflect.ValueOf(prog), map[uintptr]bool{}, inst, 0)
+		if len(inst) > before {
+			for n := range inst {
+				if _, ok := instSrc[n]; !ok {
+					instSrc[n] = src
+				}
+			}
+		}
 	}
 	var names []string
 	for n := range inst {
@@ -490,19 +537,19 @@ func structStream(c *vh.Ctx, m *vh.Model) {
 		}
 	}
 	for _, name := range names {
-		structCase(c, m, name, inst[name], "")
+		structCase(c, m, name, inst[name], instSrc[name])
 	}
-	orderStream(c)
+	orderStream(c, m)
 }
 
-func orderStream(c *vh.Ctx) {
+func orderStream(c *vh.Ctx, m *vh.Model) {
 	var keys []string
 	for k := range ordInst {
 		keys = append(keys, k)
 	}
 	sort.Strings(keys)
 	for _, k := range keys {
-		orderCase(c, k, ordInst[k])
+		orderCase(c, m, k, ordInst[k])
 	}
 }
 
@@ -588,7 +635,7 @@ func structReplay(c *vh.Ctx, m *vh.Model, rc replayCase) {
 	}
 	if rc.Kind == "order" {
 		if n, ok := ordInst[rc.Type+"."+rc.Snip]; ok {
-			orderCase(c, rc.Type+"."+rc.Snip, n)
+			orderCase(c, m, rc.Type+"."+rc.Snip, n)
 		} else {
 			c.Note("replay: no instance of %s with two members in %s found", rc.Type, rc.Snip)
 		}
